@@ -445,7 +445,14 @@ class Interp:
                 for st in stmts:
                     if not ok:
                         return
-                    if isinstance(st, (ast.Try, ast.AsyncFor, ast.AsyncWith, ast.Global, ast.Nonlocal)):
+                    if isinstance(st, ast.Try):
+                        ifs = try_as_ifs(st)
+                        if ifs is None:
+                            ok = False
+                            return
+                        scan(ifs, in_loop)
+                        continue
+                    if isinstance(st, (ast.AsyncFor, ast.AsyncWith, ast.Global, ast.Nonlocal)):
                         ok = False
                         return
                     for n in ast.walk(st) if not isinstance(st, (ast.For, ast.While, ast.If, ast.With)) else []:
@@ -483,6 +490,117 @@ def _literal_seq(node) -> bool:
         return True
     if isinstance(node, (ast.Tuple, ast.List)):
         return all(_literal_seq(e) for e in node.elts)
+    return False
+
+
+def _pure_path(node) -> bool:
+    """A name, attribute chain, constant, or subscript chain of those: evaluating it twice changes nothing."""
+    if isinstance(node, (ast.Name, ast.Constant)):
+        return True
+    if isinstance(node, ast.Attribute):
+        return _pure_path(node.value)
+    if isinstance(node, ast.Subscript) and not isinstance(node.slice, ast.Slice):
+        return _pure_path(node.value) and _pure_path(node.slice)
+    if isinstance(node, ast.UnaryOp) and isinstance(node.op, ast.USub) and isinstance(node.operand, ast.Constant):
+        return True
+    return False
+
+
+def _raising_lookups(expr, kind: str):
+    """The lookups of `expr` that can raise KeyError (kind 'key') / IndexError (kind 'index'), outermost last, when expr is
+    nothing but such lookups over pure paths: a[b], a[b][c], (key only) a.pop(b); None for anything else."""
+    if isinstance(expr, ast.Subscript) and not isinstance(expr.slice, ast.Slice) and _pure_path(expr.slice):
+        if _pure_path(expr.value):
+            inner = []
+            base = expr.value
+            # lookups hidden in the base path are part of the same expression: a[b][c] looks up a[b] first
+            chain = []
+            while isinstance(base, ast.Subscript):
+                chain.append(base)
+                base = base.value
+            for sub in reversed(chain):
+                inner.append((sub.value, sub.slice))
+            return inner + [(expr.value, expr.slice)]
+        return None
+    if kind == "key" and isinstance(expr, ast.Call) and isinstance(expr.func, ast.Attribute) and expr.func.attr == "pop" \
+            and len(expr.args) == 1 and not expr.keywords and _pure_path(expr.func.value) and _pure_path(expr.args[0]):
+        return [(expr.func.value, expr.args[0])]
+    return None
+
+
+def try_as_ifs(s: ast.Try) -> Optional[list]:
+    """EAFP lookups as the look-before-you-leap code they equal:
+
+        try:                          if k in d:
+            x = d[k]                      x = d[k]
+        except KeyError:                  <else part>
+            <handler>                 else:
+        else:                             <handler>
+            <else part>
+
+    for a try body made only of assignments `name = <dict lookups over pure paths>` (several statements nest), one handler
+    for exactly KeyError (IndexError: `len(seq) > i` for a constant index) without `as`, no finally."""
+    if s.finalbody or len(s.handlers) != 1 or not s.body:
+        return None
+    h = s.handlers[0]
+    if h.name is not None or h.type is None:
+        return None
+    names = [ast.unparse(e) for e in (h.type.elts if isinstance(h.type, ast.Tuple) else [h.type])]
+    if names == ["KeyError"]:
+        kind = "key"
+    elif names == ["IndexError"]:
+        kind = "index"
+    else:
+        return None
+    steps = []
+    for st in s.body:
+        # storing into a name never raises; storing an item into a dict never raises KeyError (the value is computed first)
+        if not (isinstance(st, ast.Assign) and all(
+                isinstance(t, ast.Name) or (kind == "key" and isinstance(t, ast.Subscript) and not isinstance(t.slice, ast.Slice)
+                                            and _pure_path(t.value) and _pure_path(t.slice)) for t in st.targets)):
+            return None
+        lk = _raising_lookups(st.value, kind)
+        if not lk:
+            return None
+        tests = []
+        for cont, key in lk:
+            if kind == "key":
+                tests.append(ast.Compare(left=key, ops=[ast.In()], comparators=[cont]))
+            else:
+                idx = key.value if isinstance(key, ast.Constant) else (-key.operand.value if isinstance(key, ast.UnaryOp) else None)
+                if not isinstance(idx, int) or isinstance(idx, bool):
+                    return None
+                ln = ast.Call(func=ast.Name(id="len", ctx=ast.Load()), args=[cont], keywords=[])
+                tests.append(ast.Compare(left=ln, ops=[ast.Gt() if idx >= 0 else ast.GtE()],
+                                         comparators=[ast.Constant(idx if idx >= 0 else -idx)]))
+        steps.append((st, tests))
+
+    def build(i):
+        if i == len(steps):
+            return list(s.orelse)
+        st, tests = steps[i]
+        test = tests[0] if len(tests) == 1 else ast.BoolOp(op=ast.And(), values=tests)
+        body = [st] + build(i + 1)
+        return [ast.If(test=test, body=body, orelse=list(h.body) or [ast.Pass()])]
+    out = build(0)
+    for n_ in out:
+        for x in ast.walk(n_):
+            if not hasattr(x, "lineno"):
+                ast.copy_location(x, s)
+        ast.fix_missing_locations(n_)
+    return out
+
+
+def _table_row(node, top=True) -> bool:
+    """A row of a module-level dispatch table: constants, names (functions, classes, constants), lambdas and tuples of these."""
+    if isinstance(node, (ast.Constant, ast.Name, ast.Lambda)):
+        return True
+    if isinstance(node, ast.Attribute):
+        return _table_row(node.value, False)
+    if isinstance(node, (ast.Tuple, ast.List)):
+        return all(_table_row(e, False) for e in node.elts)
+    if isinstance(node, ast.UnaryOp) and isinstance(node.operand, ast.Constant):
+        return True
     return False
 
 
@@ -701,6 +819,8 @@ def unrollable(node: ast.For) -> bool:
 def _unrollable_body(node: ast.For) -> bool:
     for st in node.body:
         for n in ast.walk(st):
+            if isinstance(n, ast.Try) and try_as_ifs(n) is not None:
+                continue            # an EAFP lookup: interpreted as the conditional it equals
             if isinstance(n, (ast.Break, ast.Continue, ast.Return, ast.Yield, ast.YieldFrom, ast.For, ast.While, ast.Try,
                               ast.With, ast.FunctionDef, ast.Lambda)):
                 return False
@@ -860,9 +980,7 @@ class _Frame:
             cur = st.env.get(nm)
             if cur is None or cur.op not in ("list", "dict", "set"):
                 continue
-            aid = self.I.fresh()
-            self.I.__dict__.setdefault("_alias_exprs", {})[aid] = expr
-            st.env[nm] = T("alias", (aid,))
+            st.env[nm] = T("alias", (self.path_of(expr, st),))
 
     def s_AnnAssign(self, s, st):
         if s.value is not None:
@@ -1223,11 +1341,23 @@ class _Frame:
             if not unrollable(s):
                 # a table-driven loop: `for raw, name in _FIELDS:` over a module-level tuple of literals (possibly reached
                 # through a parameter of an inlined helper) is the same straight-line code as the literal spelled in place
+                module_table = False
                 if items.op == "global":
                     found = self.repo.lookup(items.a[0])
                     if found and found[0] == "const" and isinstance(found[2], (ast.Tuple, ast.List)) and found[2].elts \
                             and len(found[2].elts) <= 64 and all(_literal_seq(e) for e in found[2].elts):
                         items = self.eval(found[2], st)
+                    elif found and found[0] == "const" and isinstance(found[2], ast.Tuple) and found[2].elts \
+                            and len(found[2].elts) <= 64 and all(_table_row(e) for e in found[2].elts) \
+                            and self.depth < self.I.inline_depth:
+                        # an immutable module-level table of (key, name, function) rows: evaluated where it is defined
+                        cache = self.I.__dict__.setdefault("_table_cache", {})
+                        if id(found[2]) not in cache:
+                            fr = _Frame(self.I, found[1], self.fnode, None, Record(), f"{found[1].name}.<module>",
+                                        self.depth + 1, self.stack)
+                            cache[id(found[2])] = fr.eval(found[2], State({}, {}, ()))
+                        items = cache[id(found[2])]
+                        module_table = items.op == "tuple" and not any(i.op == "star" for i in items.a[0])
                 view = None
 
                 def table_dict(t_):
@@ -1253,6 +1383,8 @@ class _Frame:
                 elif items.op == "tuple" and items.a[0] and len(items.a[0]) <= 64 and isinstance(s.iter, ast.Name) \
                         and not any(i.op == "star" for i in items.a[0]):
                     pass            # a local tuple literal (immutable): one copy of the body per item, whatever the items are
+                elif module_table:
+                    pass
                 elif not (items.op in ("tuple", "list") and items.a[0] and len(items.a[0]) <= 64 and all(_const_tree(i) for i in items.a[0])):
                     items = T("unknown", ("not-a-literal-table",))
             if items.op in ("tuple", "list") and not any(i.op == "star" for i in items.a[0]):
@@ -1418,6 +1550,11 @@ class _Frame:
         return self.exec_block(s.body, st)
 
     def s_Try(self, s, st):
+        cache = self.I.__dict__.setdefault("_try_ifs", {})
+        if id(s) not in cache:
+            cache[id(s)] = try_as_ifs(s)
+        if cache[id(s)] is not None:
+            return self.exec_block(cache[id(s)], st)
         names = []
         for h in s.handlers:
             if h.type is None:
@@ -1549,6 +1686,10 @@ class _Frame:
             nt = self._namedtuple_item(v, idx.a[0])
             if nt is not None:
                 return nt
+            if v.op == "call" and v.a[0] == T("builtin", ("divmod",)) and len(v.a[1]) == 2 and not v.a[2] \
+                    and idx.a[0] in (0, 1, -1, -2):
+                # divmod(a, b) is (a // b, a % b)
+                return self.binop("//" if idx.a[0] in (0, -2) else "%", v.a[1][0], v.a[1][1])
         if v.op in ("tuple", "list") and idx.op == "const" and isinstance(idx.a[0], int):
             items = v.a[0]
             if -len(items) <= idx.a[0] < len(items) and not any(i.op == "star" for i in items):
@@ -1680,6 +1821,15 @@ class _Frame:
         return self.attr(base, n.attr, st, n)
 
     def attr(self, base: T, name: str, st: State, node=None) -> T:
+        if base.op == "builtin" and base.a[0] in ("str", "bytes") and hasattr(str if base.a[0] == "str" else bytes, name) \
+                and not name.startswith("_") and name not in ("maketrans", "fromhex"):
+            # the unbound method str.split is the function lambda s: s.split()
+            lam = ast.parse(f"lambda _s: _s.{name}()", mode="eval").body
+            for sub in ast.walk(lam):
+                if node is not None and hasattr(node, "lineno"):
+                    ast.copy_location(sub, node)
+            ast.fix_missing_locations(lam)
+            return self.e_Lambda(lam, st)
         if base.op == "class":
             found = self.repo.lookup(base.a[0])
             if found and found[0] == "class":
@@ -1688,6 +1838,9 @@ class _Frame:
                     return T("enum", (ci.qualname, name))
                 if name in ci.methods:
                     return T("attr", (base, name))
+                cv = self._class_attribute(base.a[0], name)
+                if cv is not None:
+                    return cv
             return T("attr", (base, name))
         if base.op == "enum":
             ci = self.repo.lookup(base.a[0])[2]
@@ -1744,6 +1897,11 @@ class _Frame:
                 tgt, val = st_.targets[0].id, st_.value
             if tgt == name and isinstance(val, ast.Constant):
                 return const(val.value)
+            if tgt == name and val is not None and not ci.is_dataclass:
+                # a namespace class: NAME = <constant expression over module constants>
+                v = consteval.evaluate(self.repo, ci.module, val)
+                if v is not consteval.UNKNOWN and isinstance(v, (int, str, bytes, float, bool, type(None))):
+                    return const(v)
         for b in ci.bases:
             r = self._class_attribute(b, name, depth + 1)
             if r is not None:
@@ -2638,6 +2796,8 @@ def merge_terms(cond: T, va: T, vb: T) -> T:
         va = va.a[0]
     if vb.op == "alias" and isinstance(vb.a[0], T):
         vb = vb.a[0]
+    if va == vb:
+        return va
     g = get_form(cond, va, vb)
     if g is not None:
         return g
